@@ -6,7 +6,7 @@ from a user token instead of the call site keeps its text (round 9: `quote_spann
 `__state` unresolved when the item is written by a `macro_rules!`; B observes that since). The source has very few places
 that choose a span; `gen/tables.py` extracts them on every run and the kernel checks that they are the ones listed here
 (`spanSites_known`): every identifier the expansion creates has the call-site span (`format_ident!` without `span =`,
-`Ident::new(.., Span::call_site())`), and the only `quote_spanned!` builds the `compile_error!` of the attribute stage.
+`Ident::new(.., Span::call_site())`), and the only `quote_spanned!` re-creates the `#[derive_where(..)]` attribute in front of the item in the attribute stage.
 -/
 
 namespace DW
